@@ -387,6 +387,71 @@ def process(model):
             rec["results"] = results[(cls_name, desc)]
         invs.append(rec)
     out["invariants"] = invs
+
+    # ---- verification functions whose body is a single ``return <expression>``
+    fn_args = model.get("fn_args") or {}
+    funcs = []
+    for pf in parsed.verification_functions:
+        if not isinstance(pf, parse.UnderstoodMethod):
+            continue
+        if not pf.name.startswith(model.get("fn_prefix", "vf_")):
+            continue
+        rec = {"name": pf.name}
+        body = list(pf.body)
+        if len(body) != 1 or not isinstance(body[0], pt.Return) or body[0].value is None:
+            rec["tree_error"] = "body is not a single return"
+            funcs.append(rec)
+            continue
+        value = body[0].value
+        try:
+            rec["tree"] = dump_tree(value)
+        except ValueError as e:
+            rec["tree_error"] = str(e)
+        if st is not None:
+            vf = st.verification_functions_by_name.get(pf.name)
+            if isinstance(vf, intermediate.TranspilableVerification):
+                value = vf.parsed.body[0].value
+                canonicalizer = ti._Canonicalizer()
+                try:
+                    for node in vf.parsed.body:
+                        canonicalizer.transform(node)
+                    nodes = []
+                    walk(value, nodes)
+                    rec["canon"] = [canonicalizer.representation_map[n] for n in nodes]
+                except Exception as e:  # noqa
+                    rec["canon_exc"] = type(e).__name__
+                try:
+                    inference, err = ti.infer_for_verification(
+                        verification=vf, base_environment=base)
+                except Exception as e:  # noqa
+                    rec["verdict"] = "exc:" + type(e).__name__
+                else:
+                    if err is not None:
+                        rec["verdict"] = "err"
+                        rec["messages"] = flatten(err)[:6]
+                    else:
+                        rec["verdict"] = "ok"
+                        nodes = []
+                        walk(value, nodes)
+                        rec["types"] = [dump_type(inference.type_map[n], inference.type_map, n)
+                                        for n in nodes]
+            else:
+                rec["verdict"] = "not-transpilable:" + type(vf).__name__
+        if ns is not None and pf.name in fn_args and callable(ns.get(pf.name)):
+            res = []
+            for argv in fn_args[pf.name]:
+                vals = [build(ns, j) for j in argv]
+                try:
+                    r = ns[pf.name](*vals)
+                except RecursionError:
+                    raise
+                except Exception as e:  # noqa
+                    res.append({"exc": type(e).__name__, "msg": str(e)[:200]})
+                else:
+                    res.append({"val": unbuild(r)})
+            rec["results"] = res
+        funcs.append(rec)
+    out["functions"] = funcs
     return out
 
 
